@@ -71,6 +71,13 @@ def run(prop, tier, replay):
         binp = vlib.go_build(sc, "./cmd/wiretable", "wiretable", overlay=ov)
         if replay:
             rf = json.load(open(replay))
+            if rf.get("kind") == "race":
+                race_bin = vlib.go_build(sc, "./cmd/wiretable", "wiretable_race", overlay=ov, race=True)
+                sample = sc.path("race_cases.ndjson")
+                open(sample, "w").write("".join(json.dumps(c) + "\n" for c in rf["cases"]))
+                pr = vlib.run([race_bin, "-cases", sample, "-concurrent", "4"], ok_codes=None, timeout=600)
+                print("REPRODUCED: data race" if "WARNING: DATA RACE" in pr.stderr else "NOT-REPRODUCED")
+                return 1 if "WARNING: DATA RACE" in pr.stderr else 0
             p = sc.path("one.ndjson")
             open(p, "w").write(json.dumps(rf["case"]) + "\n")
             pr = vlib.run([binp, "-cases", p], ok_codes=None)
@@ -126,6 +133,23 @@ def run(prop, tier, replay):
                 v.violation(rf, "%s [%s case %d]" % (f["what"], tag, f["index"]))
             if v.violations:
                 break
+        if prop == "C16" and not v.violations:
+            # inbound streams are served by one goroutine each: decode a sample of the cases on several streams at once
+            # in a binary built with -race; a data race between streams (shared, unsynchronised state) can kill the node
+            race_bin = vlib.go_build(sc, "./cmd/wiretable", "wiretable_race", overlay=ov, race=True)
+            sample = sc.path("race_cases.ndjson")
+            with open(sample, "w") as f:
+                for c in cases[:400]:
+                    f.write(json.dumps(c) + "\n")
+            pr = vlib.run([race_bin, "-cases", sample, "-concurrent", "4"], ok_codes=None, timeout=600, env={"GORACE": "halt_on_error=0 exitcode=66"})
+            cov["concurrent_streams"] = {"streams": 4, "cases_each": min(400, len(cases)), "race_detector_exit": pr.returncode}
+            if pr.returncode == 66 or "WARNING: DATA RACE" in pr.stderr:
+                i = pr.stderr.find("WARNING: DATA RACE")
+                rf = {"kind": "race", "cases": cases[:400], "report": pr.stderr[i:i + 2500]}
+                where = [l.strip() for l in pr.stderr[i:].splitlines() if "/remote/" in l or "/actor/" in l][:2]
+                v.violation(rf, "data race between concurrent inbound streams (shared state without synchronisation; Go aborts the process on a concurrent map access): %s" % "; ".join(where))
+            elif pr.returncode != 0:
+                raise vlib.Broken("wiretable -concurrent failed rc=%d: %s" % (pr.returncode, pr.stderr[-1500:]))
         # vacuity guard: each repair switched off must make TLC fail
         reg = {}
         for fix, want in REGRESSION[prop]:
